@@ -152,17 +152,17 @@ end
 /-! #### declarations of a valid node -/
 
 /-- The declaration carried by a namespace node. -/
-def nsPair : Value → Option (Nat × Nat)
+def fcNsPair : Value → Option (Nat × Nat)
   | .namespace p n => some (p, n)
   | _ => none
 
-theorem nsDecls_eq (t : Tree) : t.nsDecls = t.namespaceNodes.filterMap (fun k => nsPair k.value) := by
+theorem nsDecls_eq (t : Tree) : t.nsDecls = t.namespaceNodes.filterMap (fun k => fcNsPair k.value) := by
   unfold Tree.nsDecls
   congr 1
 
 /-- The declarations of a node in terms of its children with handles. -/
 def declsOfKids (ks : List HTree) : List (Nat × Nat) :=
-  (ks.takeWhile (fun k => k.value.category == .namespace)).filterMap (fun k => nsPair k.value)
+  (ks.takeWhile (fun k => k.value.category == .namespace)).filterMap (fun k => fcNsPair k.value)
 
 theorem erase_value' (t : HTree) : (erase t).value = t.value := by
   cases t; rfl
@@ -200,7 +200,7 @@ theorem declsOfKids_keys (ks : List HTree) :
     · rename_i hc
       cases k with
       | node hk vk kk =>
-        cases vk <;> simp_all [HTree.value, Value.category, Forest.entryKey, nsPair]
+        cases vk <;> simp_all [HTree.value, Value.category, Forest.entryKey, fcNsPair]
     · rfl
 
 /-- What `ChainOK` asks of one tree follows from structural validity. -/
